@@ -1,12 +1,16 @@
 #!/bin/bash
 # tools/mutest.sh <patch.diff> <PROPERTY-ID> [tier]  -- apply a seeded change to /repo, run the check, always undo.
+# Holds the global /tmp/verif-repo.lock for the whole time so that no other check sees the modified tree.
 set -u
 patch=$(readlink -f "$1"); pid=$2; tier=${3:-quick}
+exec 9>/tmp/verif-repo.lock
+flock 9
 cd /repo || exit 2
 if ! git diff --quiet; then echo "repo has uncommitted changes; refusing"; exit 2; fi
 git apply "$patch" || { echo "patch does not apply"; exit 2; }
+trap 'git -C /repo checkout -- .' EXIT
 cd /verif
-./check "$pid" --tier "$tier"
+VERIF_LOCK_HELD=1 ./check "$pid" --tier "$tier"
 rc=$?
 git -C /repo checkout -- .
 echo "mutest: check exit code $rc"
